@@ -49,7 +49,7 @@ func NewPool(n int, scratch string) (*Pool, error) {
 	if n <= 0 {
 		n = runtime.NumCPU()
 	}
-	p := &Pool{N: n, Scratch: scratch, exe: exe, recycle: 20000, Watchdog: 60}
+	p := &Pool{N: n, Scratch: scratch, exe: exe, recycle: 20000, Watchdog: 30}
 	p.workers = make([]*proc, n)
 	return p, nil
 }
